@@ -55,7 +55,7 @@ func HarnessC05BuiltinsOverMapsAndSets() {
 	if verifrt.Bool() {
 		arg = set
 	}
-	which := verifrt.Choose(5)
+	which := verifrt.Choose(6)
 	do := func() string {
 		switch which {
 		case 0:
@@ -66,6 +66,9 @@ func HarnessC05BuiltinsOverMapsAndSets() {
 			return c05Render(Keys(ctx, arg))
 		case 3:
 			return c05Render(List(ctx, arg))
+		case 5:
+			// csv text of a list of maps: header and columns in a fixed order
+			return c05Render(Encode(ctx, object.NewList([]object.Object{m, m}), object.NewString("csv")))
 		}
 		return c05Render(String(ctx, arg))
 	}
